@@ -140,6 +140,8 @@ class ScriptedRNG(BaseRNG):
     def _quant(self, fn, args, default):
         if self.qseq is not None:
             v = self.qseq.pop(0) if self.qseq else default
+            if isinstance(v, dict):           # one answer per KIND of call: the same quantile whichever way the code asks for it
+                v = v.get(fn, default)
             self.events.append({"kind": "q", "fn": fn, "args": [float(x) for x in args], "val": float(v), "alts": [v]})
             return v
         alts = list(self.qgrid.get(fn, [default]))
